@@ -2360,28 +2360,38 @@ impl Write for SummaryStream {
          * Look for the last complete pkg_summary(5) record, if there are none
          * then go to the next input.
          */
+        let mut invalid = None;
         let valid = match std::str::from_utf8(&self.buf) {
-            Ok(s) => Ok(s),
+            Ok(s) => s,
             /*
              * A multi-byte character may be split across writes, in which
-             * case only consider the valid data received so far.
+             * case only consider the valid data received so far.  Bytes that
+             * can never become valid are reported once the complete records
+             * in front of them have been collected.
              */
-            Err(e) if e.error_len().is_none() => {
-                std::str::from_utf8(&self.buf[..e.valid_up_to()])
-            }
-            Err(e) => Err(e),
-        };
-        let input_string = match valid {
-            Ok(s) => {
-                if let Some(last) = s.rfind("\n\n") {
-                    s.get(0..last + 2).unwrap()
-                } else {
-                    return Ok(input.len());
+            Err(e) => {
+                if e.error_len().is_some() {
+                    invalid = Some(e);
+                }
+                match std::str::from_utf8(&self.buf[..e.valid_up_to()]) {
+                    Ok(s) => s,
+                    Err(e) => {
+                        return Err(io::Error::new(
+                            io::ErrorKind::InvalidData,
+                            e,
+                        ))
+                    }
                 }
             }
-            Err(e) => {
-                return Err(io::Error::new(io::ErrorKind::InvalidData, e))
-            }
+        };
+        let input_string = match valid.rfind("\n\n") {
+            Some(last) => valid.get(0..last + 2).unwrap(),
+            None => match invalid {
+                Some(e) => {
+                    return Err(io::Error::new(io::ErrorKind::InvalidData, e))
+                }
+                None => return Ok(input.len()),
+            },
         };
 
         /*
@@ -2406,6 +2416,10 @@ impl Write for SummaryStream {
          */
         let slen = input_string.len();
         self.buf = self.buf.split_off(slen);
+
+        if let Some(e) = invalid {
+            return Err(io::Error::new(io::ErrorKind::InvalidData, e));
+        }
 
         Ok(input.len())
     }
